@@ -480,16 +480,33 @@ def key_id(kt, v):
 
 
 class ValGen:
-    def __init__(self, uni, rng, big=False, max_depth=4, minimal=False):
+    def __init__(self, uni, rng, big=False, max_depth=4, minimal=False, alternate=False):
         self.u = uni
         self.rng = rng
         self.big = big
         self.max_depth = max_depth
         self.minimal = minimal      # inner containers / strings empty: count checks at their tightest
+        self.alternate = alternate  # container elements alternate between full and sparse (nil optionals): leftovers show
+        self.sparse = False
 
     def val(self, t, depth=0, optional=False):
         rng = self.rng
         k = t[0]
+        if self.alternate and self.sparse:
+            if k == 'ptr':
+                return ('pn',)
+            if k in ('list', 'set'):
+                return ('ln',)
+            if k == 'map':
+                return ('mn',)
+            if k == 'binary':
+                return ('bn',)
+            if k == 'string':
+                return ('b', b'')
+            if k in SCALARS:
+                return ('s', 0)
+        if self.alternate and not self.sparse and k == 'ptr' and depth < self.max_depth:
+            return ('p', self.val(t[1], depth))
         if k in SCALARS:
             return ('s', gen_scalar(k, rng))
         if k == 'string':
@@ -504,11 +521,21 @@ class ValGen:
             n = self.count(LIST_SIZES, BIG_LIST_SIZES, depth, t[1])
             if self.minimal:
                 n = 0 if depth > 1 else rng.pick([2, 3, 5, 6])
+            if self.alternate:
+                n = max(n, 2) if depth < 2 else n
+                out = []
+                for j in range(n):
+                    self.sparse = (j % 2 == 1)
+                    out.append(self.val(t[1], depth + 1))
+                self.sparse = False
+                return ('l', out)
             return ('l', [self.val(t[1], depth + 1) for _ in range(n)])
         if k == 'map':
             if rng.chance(1, 8):
                 return ('mn',)
             n = self.count(MAP_SIZES, BIG_MAP_SIZES, depth, t[2])
+            if self.alternate and depth < 2:
+                n = max(n, 2)
             if self.minimal:
                 n = 0 if depth > 1 else rng.pick([2, 3, 5])
             es, seen = [], set()
@@ -523,7 +550,13 @@ class ValGen:
                     if kid in seen:
                         continue
                     seen.add(kid)
-                es.append((kv, self.val(t[2], depth + 1)))
+                if self.alternate:
+                    self.sparse = (len(es) % 2 == 1)
+                    vv = self.val(t[2], depth + 1)
+                    self.sparse = False
+                    es.append((kv, vv))
+                else:
+                    es.append((kv, self.val(t[2], depth + 1)))
             return ('m', es)
         if k == 'ptr':
             if depth >= self.max_depth or rng.chance(1, 4):
